@@ -44,7 +44,7 @@ def leftover_stage(ctx, cov):
     cov["multiblock_loser_above_newer"] = kinds.get("dup-generation-multiblock-loser-above", 0)
 
 MODULE = "Feox.Props.C03W"
-THEOREMS = ['Feox.Fmt.crashed_open_restores_clean_rep', 'Feox.Fmt.recover_crashed_front_write', 'Feox.Fmt.span_avoids_front_alloc', 'Feox.Fmt.recover_crashed_write', 'Feox.Fmt.recover_crashed_retirement', 'Feox.Fmt.survivors_of_retirement', 'Feox.Fmt.span_avoids_retired', 'Feox.Fmt.journalled_extents_aligned', 'Feox.Fmt.tiled_aligned_of_rec', 'Feox.Fmt.crashed_open_end_to_end_slot1', 'Feox.Fmt.crashed_open_end_to_end_slot0', 'Feox.Fmt.journal_area_eq', 'Feox.Fmt.removeExpired_none', 'Feox.Fmt.no_expired_of_records', 'Feox.Fmt.recover_crashed_device_journalled', 'Feox.Fmt.coalesceExtents_spec', 'Feox.Fmt.replayIo_ok', 'Feox.Fmt.recover_crashed_device', 'Feox.Fmt.marksClean_replayed', 'Feox.Fmt.recover_crashed_image', 'Feox.Fmt.decodeJournal_reads_newer_slot1', 'Feox.Fmt.decodeJournal_reads_newer_slot0', 'Feox.Fmt.decodeJournal_torn_slot1_keeps_slot0', 'Feox.Fmt.decodeJournal_torn_slot0_keeps_slot1', 'Feox.C03.crashed_open_replays_then_scans', 'Feox.Fmt.replay_open_on_bytes', 'Feox.Fmt.replayIo_shape', 'Feox.Fmt.blockAt_retireAll', 'Feox.Fmt.replay_runs_on_bytes', 'Feox.Proto.Slots.alternating_crash', 'Feox.Proto.Slots.same_slot_torn_goes_back', 'Feox.C03.batch_commit_on_bytes', 'Feox.Fmt.commit_batch', 'Feox.C03.acknowledged_record_survives_crash', 'Feox.Fmt.replay_io_on_bytes', 'Feox.Fmt.blockAt_retireWrites', 'Feox.C03.recovery_of_tiled_image_succeeds', 'Feox.Fmt.scan_rep_tiled_ok', 'Feox.Fmt.recStep_ok', 'Feox.C03.crash_during_write_on_bytes', 'Feox.C03.crash_during_retirement_on_bytes', 'Feox.Fmt.replay_on_bytes', 'Feox.C03.write_commit_on_bytes', 'Feox.C03.retirement_on_bytes', 'Feox.Fmt.commit_record', 'Feox.Fmt.retire_region', 'Feox.Fmt.holds_after_write', 'Feox.C03.byte_scan_of_tiled', 'Feox.Fmt.scan_rep_tiled', 'Feox.Fmt.scan_step_rec', 'Feox.Fmt.scan_step_mark', 'Feox.Fmt.scan_step_free', 'Feox.C03.allocation_from_the_front_keeps_spans', 'Feox.C03.interleaved_batches_lose_a_record', 'Feox.C03.every_crash_point', 'Feox.C03.clear_journal_is_quiescent', 'Feox.C03.view_single_run', 'Feox.Proto.Txn.step_inv', 'Feox.Proto.Txn.crash_view', 'Feox.C03.recover_ok', 'Feox.C03.recovered_complete', 'Feox.C03.write_txn_crash_safe', 'Feox.C03.write_txn_commit', 'Feox.C03.retire_txn_crash_safe', 'Feox.C03.before_intent', 'Feox.Proto.TiledBy.skip', 'Feox.Proto.TiledBy.mask', 'Feox.Proto.TiledBy.fill', 'Feox.Proto.maskRun_ignores']
+THEOREMS = ['Feox.Fmt.acknowledged_key_found_after_crashed_open', 'Feox.Fmt.unretired_key_found_after_crashed_retirement', 'Feox.Fmt.findLive_fold_of_nodup', 'Feox.Fmt.crashed_open_restores_clean_rep', 'Feox.Fmt.recover_crashed_front_write', 'Feox.Fmt.span_avoids_front_alloc', 'Feox.Fmt.recover_crashed_write', 'Feox.Fmt.recover_crashed_retirement', 'Feox.Fmt.survivors_of_retirement', 'Feox.Fmt.span_avoids_retired', 'Feox.Fmt.journalled_extents_aligned', 'Feox.Fmt.tiled_aligned_of_rec', 'Feox.Fmt.crashed_open_end_to_end_slot1', 'Feox.Fmt.crashed_open_end_to_end_slot0', 'Feox.Fmt.journal_area_eq', 'Feox.Fmt.removeExpired_none', 'Feox.Fmt.no_expired_of_records', 'Feox.Fmt.recover_crashed_device_journalled', 'Feox.Fmt.coalesceExtents_spec', 'Feox.Fmt.replayIo_ok', 'Feox.Fmt.recover_crashed_device', 'Feox.Fmt.marksClean_replayed', 'Feox.Fmt.recover_crashed_image', 'Feox.Fmt.decodeJournal_reads_newer_slot1', 'Feox.Fmt.decodeJournal_reads_newer_slot0', 'Feox.Fmt.decodeJournal_torn_slot1_keeps_slot0', 'Feox.Fmt.decodeJournal_torn_slot0_keeps_slot1', 'Feox.C03.crashed_open_replays_then_scans', 'Feox.Fmt.replay_open_on_bytes', 'Feox.Fmt.replayIo_shape', 'Feox.Fmt.blockAt_retireAll', 'Feox.Fmt.replay_runs_on_bytes', 'Feox.Proto.Slots.alternating_crash', 'Feox.Proto.Slots.same_slot_torn_goes_back', 'Feox.C03.batch_commit_on_bytes', 'Feox.Fmt.commit_batch', 'Feox.C03.acknowledged_record_survives_crash', 'Feox.Fmt.replay_io_on_bytes', 'Feox.Fmt.blockAt_retireWrites', 'Feox.C03.recovery_of_tiled_image_succeeds', 'Feox.Fmt.scan_rep_tiled_ok', 'Feox.Fmt.recStep_ok', 'Feox.C03.crash_during_write_on_bytes', 'Feox.C03.crash_during_retirement_on_bytes', 'Feox.Fmt.replay_on_bytes', 'Feox.C03.write_commit_on_bytes', 'Feox.C03.retirement_on_bytes', 'Feox.Fmt.commit_record', 'Feox.Fmt.retire_region', 'Feox.Fmt.holds_after_write', 'Feox.C03.byte_scan_of_tiled', 'Feox.Fmt.scan_rep_tiled', 'Feox.Fmt.scan_step_rec', 'Feox.Fmt.scan_step_mark', 'Feox.Fmt.scan_step_free', 'Feox.C03.allocation_from_the_front_keeps_spans', 'Feox.C03.interleaved_batches_lose_a_record', 'Feox.C03.every_crash_point', 'Feox.C03.clear_journal_is_quiescent', 'Feox.C03.view_single_run', 'Feox.Proto.Txn.step_inv', 'Feox.Proto.Txn.crash_view', 'Feox.C03.recover_ok', 'Feox.C03.recovered_complete', 'Feox.C03.write_txn_crash_safe', 'Feox.C03.write_txn_commit', 'Feox.C03.retire_txn_crash_safe', 'Feox.C03.before_intent', 'Feox.Proto.TiledBy.skip', 'Feox.Proto.TiledBy.mask', 'Feox.Proto.TiledBy.fill', 'Feox.Proto.maskRun_ignores']
 
 
 def run(ctx):
